@@ -26,6 +26,8 @@ var families = map[string]func(*h.Run){
 	"C11": props.C11,
 	"C12": props.C12,
 	"C13": props.C13,
+	"C14": props.C14,
+	"C15": props.C15,
 	"C16": props.C16,
 	"C17": props.C17,
 	"C18": props.C18,
